@@ -13,7 +13,7 @@ from harness.c09 import digest, exact
 from harness.common import Failure, Spec, coq_bool, coq_list, stable_hash
 
 BEH = {"ret": "FRet", "raise": "FRaise", "defer": "FDefer", "stopret": "FStopRet", "stopdefer": "FStopDefer",
-       "resetret": "FResetRet"}
+       "resetret": "FResetRet", "restartret": "FRestartRet"}
 _RESTART_WHILE_PENDING = {}      # case hash -> bool, filled by impl(), read by to_coq()
 
 
@@ -68,6 +68,13 @@ def impl(case) -> str:
             lc.stop()
         if b == "resetret":
             lc.reset()
+        if b == "restartret":
+            restart_pending[0] = True             # start() while this invocation is not over (known-finding class)
+            lc.stop()
+            g = gens[0]
+            d = lc.start(lc.interval, now=False)
+            gens[0] += 1
+            d.addCallbacks(lambda r, g=g: toks.append(f"d{g}+"), lambda f, g=g: toks.append(f"d{g}-"))
         if b in ("defer", "stopdefer"):
             d = defer.Deferred()
             outstanding.append(d)
@@ -145,7 +152,7 @@ def oracle(case, obs):
     gen = 0                    # start() calls so far
     unfired_gen = None         # the start() Deferred that has to fire when the loop ends
     ncalls = 0
-    epoch_clean = True         # no reset / restart so far: the count law applies
+    epoch_clean = True         # no reset() since the last start(): the simple count law applies
     last_counted_time = None   # time of the last countCallable call
     count_sum = 0
 
@@ -220,13 +227,18 @@ def oracle(case, obs):
             running = False
         if b == "resetret":
             pass                                 # self.call is None inside f: reset() does nothing
+        if b == "restartret":
+            return "restart-inside"
         if b in ("defer", "stopdefer"):
             waiting += 1
             return None
         return completed_ok()
 
     restart_class = False
+    inside_class = False
     for o in case["ops"]:
+        if inside_class:
+            break
         if o[0] == "start":
             if running or o[1] < 0:
                 if take() != "XA":
@@ -235,20 +247,25 @@ def oracle(case, obs):
                 if waiting:
                     restart_class = True
                     break
-                if gen > 0:
-                    epoch_clean = False
                 running, start, interval, run_at_start = True, now, o[1], o[2]
                 unfired_gen = gen
                 gen += 1
+                last_counted_time, count_sum, epoch_clean = None, 0, True     # counting starts afresh
                 f = call_f() if o[2] else None
                 if not o[2]:
                     nxt = boundary_after(now)
+                if f == "restart-inside":
+                    inside_class = True
+                    continue
                 if f:
                     return f
         elif o[0] == "adv":
             now += o[1]
             if nxt is not None and nxt <= now:
                 f = call_f()
+                if f == "restart-inside":
+                    inside_class = True
+                    continue
                 if f:
                     return f
         elif o[0] == "fire":
@@ -283,6 +300,15 @@ def oracle(case, obs):
         want = "[r%d;%s]" % (int(running), "" if nxt is None else str(nxt))
         if t != want:
             return fail(f"after {o}: state {t}, expected {want} (running, time of the next call)", "next-call-time")
+    if inside_class:
+        # known-finding class: stop() + start() from inside f.  The recorded defect shows as two pending calls
+        # of the same loop; anything else (e.g. a repaired start() that refuses, or cancels) is accepted silently.
+        for t in toks:
+            if t.startswith("[r") and "," in t:
+                return Failure(case, "stop() then start(now=False) from inside f: the call scheduled by start() is "
+                                     "overwritten, not cancelled, when f returns; two timer chains run side by side "
+                                     "and the first start() Deferred never fires", "restart-inside-call")
+        return None
     if restart_class:
         # known-finding class: start() while a Deferred of the previous run is unfired.  The recorded defect shows
         # as an overlapping call; anything else (e.g. a repaired start() that refuses) is accepted silently.
@@ -302,13 +328,28 @@ def oracle(case, obs):
 # generation
 
 
+def restart_count_case(rng):
+    """a withCount loop stopped and started again at / shortly after / long after its last tick"""
+    k = rng.choice([0, 2])
+    i = rng.choice([1, 3, 4, 10])
+    ops = [["start", i, rng.random() < 0.7]]
+    for _ in range(rng.randrange(0, 4)):
+        ops.append(["adv", i * rng.randrange(1, 3) + rng.choice([0, 0, 1])])
+    ops.append(["stop"])
+    ops.append(["adv", rng.choice([0, 0, 1, i - 1, i, i + 1, 7 * i, 25 * i])])
+    ops.append(["start", rng.choice([i, i, 2 * i, 1]), rng.random() < 0.7])
+    for _ in range(rng.randrange(1, 5)):
+        ops.append(rng.choice([["adv", i], ["adv", 1], ["adv", 3 * i + 1], ["reset"], ["stop"], ["start", i, True]]))
+    return {"k": k, "count": True, "beh": [], "ops": ops, "reactor": rng.random() < 0.3}
+
+
 def rand_case(rng, restart=False):
     k = rng.choice([0, 1, 3, 10])
     reactor = rng.random() < 0.35
     interval = rng.choice([1, 2, 3, 5, 8, 7 * 2 ** 20, 1000] + ([0, 0, 0] if reactor else []))
     nb = rng.randrange(0, 10)
     weights = rng.choice([["ret"] * 6 + ["defer"] * 3 + ["raise"], ["ret", "defer"], ["ret"] * 8 + ["stopret", "stopdefer",
-                         "resetret", "raise", "defer"], ["defer"] * 3 + ["stopdefer", "ret"]])
+                         "resetret", "raise", "defer", "restartret"], ["defer"] * 3 + ["stopdefer", "ret"]])
     beh = [rng.choice(weights) for _ in range(nb)]
     ops = [["start", interval, rng.random() < 0.6]]
     for _ in range(rng.randrange(3, 30)):
@@ -345,7 +386,7 @@ ALPHABET = [["adv", 1], ["adv", 2], ["adv", 3], ["adv", 7], ["fire", True], ["fi
 ALPHABET0 = [["adv", 0], ["adv", 2], ["fire", True], ["fire", False], ["stop"], ["reset"], ["start", 0, True],
              ["start", 2, False]]
 BEHS = [[], ["defer"], ["ret", "defer", "ret", "defer"], ["ret", "raise"], ["stopret"], ["defer", "stopdefer"],
-        ["ret", "resetret"]]
+        ["ret", "resetret"], ["ret", "restartret"]]
 
 
 def gen(rng, tier):
@@ -380,6 +421,8 @@ def gen(rng, tier):
         cases.append(rand_case(rng))
     for _ in range(40 if tier == "quick" else 500):
         cases.append(rand_case(rng, restart=True))
+    for _ in range(80 if tier == "quick" else 1500):
+        cases.append(restart_count_case(rng))
     return cases
 
 
@@ -401,6 +444,13 @@ def corpus():
          "ops": [["start", 0, True], ["adv", 0], ["adv", 5], ["fire", True], ["adv", 0], ["stop"], ["start", 2, True], ["adv", 3]]},
         # now=False: the first call is at start + interval, not before
         {"k": 1, "count": True, "beh": [], "ops": [["adv", 3], ["start", 5, False], ["adv", 4], ["adv", 1], ["adv", 5]]},
+        # a withCount loop restarted with now=True at the instant of its last tick / after a long pause: the
+        # immediate call must happen with count 1 (fix C10-start-resets-count)
+        {"k": 0, "count": True, "beh": [], "ops": [["start", 4, True], ["adv", 4], ["adv", 4], ["stop"], ["start", 4, True],
+                                                    ["adv", 4], ["stop"], ["adv", 100], ["start", 4, True], ["adv", 4]]},
+        # known finding: stop() + start(now=False) from inside f
+        {"k": 0, "count": False, "beh": ["ret", "restartret"], "ops": [["start", 2, True], ["adv", 2], ["adv", 2], ["stop"],
+                                                                    ["adv", 2]]},
         # known finding: restart while the previous invocation's Deferred is unfired
         {"k": 0, "count": False, "beh": ["defer", "defer"], "ops": [["start", 1, True], ["stop"], ["start", 1, True],
                                                                  ["fire", True], ["fire", True], ["adv", 1]]},
@@ -464,12 +514,13 @@ SPEC = Spec(
          "sampled 25%, length 3 sampled 1.5%) / <= 4 (thorough, length 3 50%, length 4 1%) over {advance 1/2/3/7, fire ok, fire err, stop, reset, start}; random "
          "schedules: intervals 1..7*2^20 at scales 2^0..2^-10, sub-interval steps, interval+-1, 1-3 interval jumps, "
          "5-1000 interval jumps, latencies (Deferreds fired later, possibly with failure), stop/reset from outside and "
-         "from inside f, restarts; a stream that restarts while a Deferred is unfired (known-finding class); "
+         "from inside f, restarts; a stream that restarts while a Deferred is unfired and behaviour tables that stop+start from "
+         "inside f (known-finding classes); withCount loops stopped and restarted at / just after / long after the last tick; "
          "non-trivial = f called at least twice; distinct by (case, observation)",
     trusted=["hand-written model coq/C10/Model.v (tied by this correspondence run only)",
              "the loop is the only user of its clock (task.Clock, or a ReactorBase subclass with a controlled seconds() "
              "for 35% of the random cases and for every interval-0 case: interval 0 never terminates on task.Clock)",
-             "cases that call start() while a Deferred returned by f is unfired are checked by the oracle only "
+             "cases that call start() while a Deferred returned by f is unfired, or from inside f, are checked by the oracle only "
              "(exceptions raised inside Deferred callbacks are swallowed and are not modelled)"],
     assumptions=["float arithmetic (+, -, %, /, int(), comparisons) is exact, resp. correctly truncated, on the "
                  "generated times: integers n with |n| < 2^40 scaled by 2^-k, k <= 10",
